@@ -469,3 +469,81 @@ Definition terminal (r : crec) : bool :=
 Definition all_terminal (s : st) : bool := forallb terminal (conns s).
 
 Definition n_running (s : st) : Z := sumf (fun lp => b2z (running lp)) (loops s).
+
+(* ==== the perIPConn wrapper pool ================================================================================
+   peripconn.go recycles perIPConn objects through a sync.Pool: perIPConn.Close sets c.Conn = nil under c.lock, closes the
+   underlying connection, unregisters c.ip and Puts the object into perIPConnPool; acquirePerIPConn Gets an object and
+   overwrites c.Conn and c.ip (without the lock).  Whoever still holds a pointer to the object after its first Close
+   (the serving goroutine after closeIdleConns closed it, a handler that kept ctx.Conn(), the user of a hijacked connection
+   calling Close once more) holds a pointer to an object that may meanwhile wrap ANOTHER connection.
+   This second LTS keeps the identity of the wrapper objects that the LTS above abstracts away. *)
+Record wrapper := mkW {
+  w_conn : option nat;   (* perIPConn.Conn: the underlying connection (by id), None = nil *)
+  w_addr : N             (* perIPConn.ip *)
+}.
+
+Record pst := mkP {
+  wrappers : list wrapper;        (* every perIPConn object allocated so far; its id is its position *)
+  pool : list nat;                (* perIPConnPool: objects available to Get *)
+  owner : list nat;               (* owner[c]: the object returned by acquirePerIPConn for connection c (c = position) *)
+  uclosed : list (nat * nat);     (* log of Close calls on underlying connections: (whose reference was used, which connection got closed) *)
+  pm : pmap                       (* perIPConnCounter.m *)
+}.
+
+Definition pinit : pst := mkP [] [] [] [] (fun _ => None).
+
+Inductive plabel :=
+| PAcquire (ip : N) (reuse : option nat)   (* Register(ip) passed; acquirePerIPConn for connection c = length owner:
+                                              Get returned the pool's entry number i (Some i) or nothing (None: a new object) *)
+| PClose (c : nat).                        (* a holder of the object acquired for connection c calls Close on it *)
+
+Fixpoint remove_nth {A} (l : list A) (i : nat) : list A :=
+  match l, i with
+  | [], _ => []
+  | _ :: r, O => r
+  | x :: r, S j => x :: remove_nth r j
+  end.
+
+Definition pstep (s : pst) (l : plabel) : option pst :=
+  match l with
+  | PAcquire ip reuse =>
+      let c := length (owner s) in
+      let m' := fst (register (pm s) ip) in
+      match reuse with
+      | None =>
+          Some (mkP (wrappers s ++ [mkW (Some c) ip]) (pool s) (owner s ++ [length (wrappers s)]) (uclosed s) m')
+      | Some i =>
+          match nth_error (pool s) i with
+          | Some w => Some (mkP (upd (wrappers s) w (mkW (Some c) ip)) (remove_nth (pool s) i) (owner s ++ [w]) (uclosed s) m')
+          | None => None
+          end
+      end
+  | PClose c =>
+      match nth_error (owner s) c with
+      | Some w =>
+          match nth_error (wrappers s) w with
+          | Some (mkW (Some c') ip') =>    (* cc := c.Conn; c.Conn = nil; cc.Close(); Unregister(c.ip); Put(c) *)
+              Some (mkP (upd (wrappers s) w (mkW None ip')) (w :: pool s) (owner s) (uclosed s ++ [(c, c')]) (unregister (pm s) ip'))
+          | Some (mkW None _) => Some s    (* cc == nil: return nil *)
+          | None => None
+          end
+      | None => None
+      end
+  end.
+
+Fixpoint prun (s : pst) (tr : list plabel) : option pst :=
+  match tr with
+  | [] => Some s
+  | l :: r => match pstep s l with Some s' => prun s' r | None => None end
+  end.
+
+(* the Close calls of a trace, by whose reference they were made *)
+Fixpoint closers (tr : list plabel) : list nat :=
+  match tr with
+  | [] => []
+  | PClose c :: r => c :: closers r
+  | _ :: r => closers r
+  end.
+
+(* every Close closed the connection the reference was acquired for *)
+Definition closes_own (s : pst) : bool := forallb (fun e => Nat.eqb (fst e) (snd e)) (uclosed s).
